@@ -295,7 +295,7 @@ CHECKS["C11"] = dict(
          "is refused and replace_task registers the new task only after the old one is done. The unload() step lists of all 8 shipped "
          "overlay classes and the wrappers' listener methods are re-translated from the source every run and proved complete. Compared "
          "with the real classes on exhaustive and random histories and on unload at every step of scripted protocol runs (default "
-         "settings, simnet, virtual time), followed by late datagrams of every id, API probes and 2 hours of virtual time.",
+         "settings, simnet, virtual time), followed by late datagrams of every id, API probes and 2 hours of virtual time. Second property file props/C11x.v (12 theorems): the TaskManager methods, the task decorator and the Endpoint listener methods are translated from the AST every run (tr_taskmanager, fail closed) into effect lists interpreted over the model's asyncio runtime; gen_refines_hand_model (gen_tstep = tstep, and for histories), gen_listeners_refine, and the name-exclusivity / replace-order / shutdown / removed-listener theorems restated over the generated functions.",
     note="Trusted: Coq kernel; tr_lifecycle; hand models and the harness (simnet, virtual-time loop, fake transports, executor jobs inline, "
          "spies). Model assumption: an overlay acts only on a delivered datagram, in a live task of one of its managers, on a datagram at "
          "an open transport, or on an API call; a task asked to stop performs no further action. Not modelled: bootstrappers, executor "
